@@ -60,9 +60,9 @@ def gen_docs(ctx, n, big):
 #   * only the ASCII characters { } : ; ( ) " ' / * \ have structural meaning.
 # So none of the characters below separates, delimits, quotes or can be trimmed from anything, although Python's
 # str.isspace() / str.strip() / str.split() / str.splitlines(), unicodedata.normalize() and the case mappings treat
-# many of them like white space, line ends or ASCII punctuation.  Left out on purpose because the statement does not
-# pin them: U+00A0 (Emmet counts it as white space, CSS does not) and U+000C (CSS counts it as white space, Emmet
-# does not).
+# many of them like white space, line ends or ASCII punctuation.  Not in these lists: U+00A0, which Emmet's scanners
+# document as white space (it is generated AS white space by the white space styles below, WS_UNITS), and U+000C (CSS
+# counts it as white space, Emmet does not: the statement does not pin it, left out on purpose).
 WIDE_CLASSES = {
     # str.isspace() is true for each of these; the last four of the first row and \x85 \u2028 \u2029 also end a line
     # for str.splitlines()
@@ -984,7 +984,8 @@ def run(ctx):
         'and small { } : ; ( ) " \' / * \\ , Greek question mark, ratio, typographic quotes) and letters/digits/marks '
         '(accented, length-changing case mappings, combining mark, non-ASCII digits, CJK, beyond the BMP); by the CSS '
         'syntax all of these are ordinary name characters and the record counts them as part of the word they stand '
-        'in (U+00A0 and U+000C are not generated: the statement does not say which side they are on); then '
+        'in (U+000C is not generated: the statement does not say which side it is on; U+00A0 is Emmet white space, see '
+        'the white space styles below); then '
         'stylesheets with declarations whose value is EMPTY (buckets empty-value:*; the half-typed `name:;`, the '
         'empty custom property `--x:;`, the commented-out value `name: /* red */;`): the slot between colon and '
         'semicolon holds nothing, white space only (space, tab, LF, CRLF) or white space and comments only (also '
@@ -996,11 +997,25 @@ def run(ctx):
         '(semicolon + 1) exactly and an empty body inside the value slot (colon < v <= semicolon), '
         'balanced_outward exactly (empty ranges are never listed), balanced_inward with the direct-hit test up to '
         'either end of the slot; these sheets are compared with the extracted model like all others and lie '
-        'outside the Level B grammar (reported there as declaration-with-empty-value); every '
+        'outside the Level B grammar (reported there as declaration-with-empty-value); then stylesheets written '
+        'in ONE WHITE SPACE STYLE each (buckets ws:*): random trees (nested rules, declarations with one to three '
+        'value words / strings / url() / parenthesised expressions, comments, a share of value-less declarations) in '
+        'which every white space slot -- start of file, before a declaration, before a selector, between the words '
+        'of a selector, between selector and brace, before and after the colon, between value words, around commas '
+        'and slashes, inside parentheses, inside strings (no raw line break there), inside and around comments, '
+        'before the semicolon, the empty-value slot, before the closing brace, end of file -- is filled from the '
+        'style: only blanks, only tabs, only LF, only CR, only CRLF, only NO-BREAK SPACE (runs of one to three), '
+        'line break + indentation (LF+NBSP, CRLF+NBSP, LF+tab, CR+blank; NBSP / tab / blank around the colon), runs '
+        'of one to four units of any kind, such runs with NBSP as first / last / both / only unit; each style with '
+        'none, 30% and 60% of the optional slots left empty, and no white space at all; the white space set is '
+        'hard-coded from upstream @emmetio/scanner utils.ts (isWhiteSpace: U+0020, U+0009, U+00A0; isSpace: plus '
+        'U+000A, U+000D), so a NBSP never belongs to, starts or ends a selector, name or value and is trimmed from '
+        'a rule\'s content range like a blank; buckets ws:<slot>:<units> and ws:unit-before-next-token:* / '
+        'ws:unit-after-previous-token:* say which unit touched the neighbouring token; every '
         'position -1..len+1; match, balanced_outward, balanced_inward compared with the generator\'s record (oracle) '
         'and with the extracted model (correspondence). Call sequences: positions of two sheets in shuffled order '
         'with queries on half-typed sheets in between. Caller-owned answers (buckets owned:*, oracle only, the model '
-        'has no objects): on the shortest and on random sheets of both generators, for random positions and each of '
+        'has no objects): on the shortest and on random sheets of all these generators, for random positions and each of '
         'the three functions, scripts on the RAW return values: ask, let the caller use the answer up in place '
         '(lists: pop first/last, clear, reverse, shift offsets, append/insert a range of its own, drop until a larger '
         'range, sort, keep one, extend; the match object: shift offsets, change type, drop body, collapse), ask the '
@@ -1054,7 +1069,7 @@ def run(ctx):
                               'func': f, 'why': why})
     ctx.cov['oracle'] = {'sheets': len(docs), 'failing_sheets': len({i for _, i, _, _, _ in failures})}
     call_sequences(ctx, docs[n_corpus:n_corpus + (12 if quick else 120)])
-    # the answers belong to the caller: sheets of both generators, the shortest ones (small replays) and random ones
+    # the answers belong to the caller: sheets of all generators, the shortest ones (small replays) and random ones
     pool = sorted(docs[n_corpus:], key=lambda d: len(d[0]))
     k_short, k_rand = (8, 16) if quick else (40, 160)
     owned_docs = pool[:k_short] + ctx.rng.sample(pool[k_short:], min(k_rand, len(pool) - k_short))
